@@ -499,17 +499,20 @@ func (nak *NotAKnotCubic) Fit(xs, ys []float64) error {
 	// First interior node:
 	dxOuter := xs[1] - xs[0]
 	dxInner := xs[2] - xs[1]
-	a.SetBand(0, 0, 1/dxOuter)
-	a.SetBand(0, 1, -1/dxOuter-1/dxInner)
-	a.SetBand(0, 2, 1/dxInner)
+	// The condition (m₁-m₀)/dxOuter = (m₂-m₁)/dxInner is multiplied by
+	// dxOuter*dxInner so that the row has the same scale as the others
+	// even when one of the intervals is tiny.
+	a.SetBand(0, 0, dxInner)
+	a.SetBand(0, 1, -dxInner-dxOuter)
+	a.SetBand(0, 2, dxOuter)
 	if n > 3 {
 		// Last interior node:
 		m := n - 1
 		dxOuter = xs[m] - xs[m-1]
 		dxInner = xs[m-1] - xs[m-2]
-		a.SetBand(m, m, 1/dxOuter)
-		a.SetBand(m, m-1, -1/dxOuter-1/dxInner)
-		a.SetBand(m, m-2, 1/dxInner)
+		a.SetBand(m, m, dxInner)
+		a.SetBand(m, m-1, -dxInner-dxOuter)
+		a.SetBand(m, m-2, dxOuter)
 	}
 	x := mat.NewVecDense(n, nil)
 	err := x.SolveVec(a, b)
